@@ -19,7 +19,7 @@ WEIRD = [
     ("undef", {"$undef": 1}), ("none", None), ("true", True), ("zero", 0), ("neg", -3),
     ("i128min", {"$i128": str(-2**127)}), ("i128max", {"$i128": str(2**127 - 1)}), ("u128max", {"$u128": str(2**128 - 1)}),
     ("nan", {"$f64": "nan"}), ("inf", {"$f64": "inf"}), ("ninf", {"$f64": "-inf"}), ("negzero", {"$f64": "-0.0"}),
-    ("empty_str", ""), ("special", "<&\"'>"), ("safe", {"$safe": "<b>"}), ("multibyte", "hé世\U0001F600"),
+    ("empty_str", ""), ("special", "<&\"'>"), ("safe", {"$safe": "<b>"}), ("multibyte", "hé世\U0001F600"), ("chars12_bytes24", "\u0417\u0434\u0440\u0430\u0432\u0441\u0442\u0432\u0443\u0439\u0442\u0435"), ("bytes22", "aaaaaaaaaaaaaaaaaaaa\u00e9"),
     ("bytes_bad", {"$bytes": [0xff, 0xfe, 0x41]}), ("bytes_empty", {"$bytes": []}),
     ("arr_empty", []), ("arr_mixed", [1, "a", None, {"$undef": 1}, [2], {"k": 1}]),
     ("map_empty", {}), ("map_undef", {"a": {"$undef": 1}, "b": {"a": {"$undef": 1}}, "name": "n", "y": 1, "xs": [1]}),
@@ -56,8 +56,11 @@ def run(tier):
                           "{%% if i %%}{%% if i %%}{%% %s %%}{%% endif %%}{%% endif %%}" % jump,
                           "{%% for k in [1] %%}{%% %s %%}{%% endfor %%}" % jump,                         # legal: the loop is inside the capture
                           "{%% for k in [1] %%}x{%% endfor %%}{%% if i %%}{%% %s %%}{%% endif %%}" % jump):
-                src = "{% component W() %}{{ body }}{% endcomponent W %}{% for i in [1, 0, 2] %}b" + cap_o + "c" + inner + "d" + cap_c + "e{% endfor %}|after"
-                jumpy.append({"tpls": [["j.html", src]], "cfg": {"probes": True}, "src": src, "entry": "j.html", "ctx": {}})
+                core = "{% for i in [1, 0, 2] %}b" + cap_o + "c" + inner + "d" + cap_c + "e{% endfor %}"
+                for wrap in ("%s", "{%% filter upper %%}%s{%% endfilter %%}", "{%% set w %%}%s{%% endset %%}{{ w }}", "{%% <W> %%}%s{%% </W> %%}"):
+                    # (the whole loop inside another capture: the loop is legal there, the jump out of the inner capture is not)
+                    src = "{% component W() %}{{ body }}{% endcomponent W %}" + (wrap % core) + "|after"
+                    jumpy.append({"tpls": [["j.html", src]], "cfg": {"probes": True}, "src": src, "entry": "j.html", "ctx": {}})
     allc = snap + jumpy
     # ---- MC on real listings (post and pre optimisation)
     post = vp.run_jobs(corpus.listing_jobs(allc, True), tag="c07-lst")
